@@ -45,8 +45,15 @@ def engine_b(pid, spec, tier, work, agg, repo, jobs):
             agg['errors'].append('Engine B build failed: %s' % str(e)[-2500:]); continue
         eb['modules'].append(ms['module']); eb['ir_functions'] += open(ll).read().count('\ndefine ')
         agg['functions_encoded'] += hm.FUNCTIONS
-        params = ms.get('params', {}).get(tier, {})
-        sel = ms.get('checks') or range(len(hm.CHECKS))
+        params = dict(ms.get('params', {}).get(tier, {}))
+        if ms.get('tsan_driver'):
+            drv = os.path.join(work, 'tsan_driver_' + ms['module'])
+            r = subprocess.run(['clang++-14', '-std=c++17', '-O1', '-g', '-fsanitize=thread', '-pthread', '-I', os.path.join(repo, 'include'), '-I', os.path.join(HERE, 'wrappers'),
+                                os.path.join(HERE, 'wrappers', ms['tsan_driver']), '-o', drv], stdout=subprocess.PIPE, stderr=subprocess.STDOUT, text=True)
+            if r.returncode == 0: params['tsan_driver'] = drv
+            else: agg['notes'].append('ThreadSanitizer replay driver does not build: ' + r.stdout[-400:])
+        names = ms.get('select', {}).get(tier)
+        sel = [i for i, c in enumerate(hm.CHECKS) if names is None or c.__name__ in names] if not ms.get('checks') else ms['checks']
         for i in sel:
             jobsl.append((ms['module'], i, ll, so, os.path.join(work, 'b_%s_%d.json' % (ms['module'], i)), params))
     with cf.ThreadPoolExecutor(jobs) as ex:
